@@ -167,6 +167,84 @@ def run(ctx, R):
              "category %s compares keys of type %s, oracle %s" % (cat, sorted(map(str, tys)), sorted(want_ty[cat])), F.where(nx))
     R.floor("compound key tuples", ntup, 10)
 
+    # argument order: the comparison stack is LIFO, so within one compound branch the pair pushed LAST
+    # must be the pair of first arguments (list head / structure argument 1 / first character)
+    ARG_ORDER_EXCEPTIONS = {
+        ("Str", "Lis"): "structure-vs-list branch pushes head first and tail last (compares tails first). It needs a '.'/2 *structure* cell, and no "
+                        "construction of one was found (functor/3, =../2, the reader and copy_term build list cells); recorded observation",
+    }
+
+    def rank(e, tuple_ranks):
+        ks = [int(x["b"]["lit"]["int"]) for x in walk(e) if x["k"] == "Binary" and x["op"] == "Add" and x["b"]["k"] == "Lit" and "int" in x["b"]["lit"]]
+        if ks:
+            return max(ks)
+        for x in walk(e):
+            if x["k"] == "Path" and res_name(x) in tuple_ranks:
+                return tuple_ranks[res_name(x)]
+        return 0
+
+    n_order = 0
+
+    def scan(n, tags):
+        nonlocal n_order
+        if isinstance(n, list):
+            for x in n:
+                scan(x, tags)
+            return
+        if not isinstance(n, dict):
+            return
+        if n.get("k") == "Arm":
+            t = [(res_name(l) or "").rsplit("::", 1)[-1] for l in pat_leaves(n["pat"]) if (res_name(l) or "").startswith("types::HeapCellValueTag::")]
+            if t:
+                tags = tags + [t[0]]
+        if n.get("k") == "Block":
+            tr = {}
+            pushes = []
+            for s in n["stmts"]:
+                if s["k"] == "Let" and s["pat"]["k"] == "PTuple" and "init" in s and any(r.endswith("last_str_char_and_tail") for _, r, _ in hir_calls(s["init"])):
+                    for i, q in enumerate(s["pat"]["pats"]):
+                        if q["k"] == "PBind":
+                            tr[q["name"]] = i
+                if s["k"] == "MethodCall" and s["name"] == "push" and s["args"] and s["args"][0]["k"] == "Tup" and any(x["k"] == "Field" and x["name"] == "stack" for x in walk(s["recv"])):
+                    a, b = s["args"][0]["elems"]
+                    pushes.append((rank(a, tr), rank(b, tr), s["ln"]))
+            if len(pushes) >= 2 and len(tags) >= 2:
+                n_order += 1
+                ok = all(pushes[i][0] >= pushes[i + 1][0] and pushes[i][1] >= pushes[i + 1][1] for i in range(len(pushes) - 1)) and \
+                    (pushes[0][0] > pushes[-1][0] and pushes[0][1] > pushes[-1][1])
+                key = tuple(tags[-2:])
+                if not ok and key in ARG_ORDER_EXCEPTIONS:
+                    R.ob("C13:argument-order:%s-vs-%s:exception" % key, True, "listed: " + ARG_ORDER_EXCEPTIONS[key], "%s (line %s)" % (F.where(nx), pushes[0][2]))
+                else:
+                    R.ob("C13:argument-order:%s-vs-%s" % key, ok,
+                         "pairs are pushed with argument positions %s (left, right, line); the comparison stack is LIFO, so the first arguments must be pushed "
+                         "last or later arguments are compared before earlier ones" % pushes, "%s (line %s)" % (F.where(nx), pushes[0][2]))
+        for v in n.values():
+            if isinstance(v, (dict, list)):
+                scan(v, tags)
+
+    scan(nh["body"], [])
+    R.floor("two-push compound branches", n_order, 7)
+    rev_loops = [x for x in walk(nh["body"]) if x["k"] == "MethodCall" and x["name"] == "rev"]
+    R.ob("C13:argument-order:Str-vs-Str:reverse-loop", len(rev_loops) >= 1, "structure arguments must be pushed in reverse index order", F.where(nx))
+
+    # packed strings are compared byte-wise up to the first difference and then as code points: the
+    # decoding window around the differing byte must span a whole UTF-8 sequence (3 back, 4 forward)
+    cps = F.find("machine::heap::compare_pstr_slices")
+    ch_ = F.hir(cps)
+    backs = [int(a["lit"]["int"]) for x in walk(ch_["body"]) if x["k"] == "MethodCall" and x["name"] == "saturating_sub" for a in x["args"] if a["k"] == "Lit" and "int" in a["lit"]]
+    fwds = []
+    for x in walk(ch_["body"]):
+        if x["k"] == "Struct" and (res_name(x) or "").endswith("ops::Range"):
+            end = dict(x["fields"]).get("end")
+            if end is not None:
+                fwds += [int(y["b"]["lit"]["int"]) for y in walk(end) if y["k"] == "Binary" and y["op"] == "Add" and y["b"]["k"] == "Lit" and "int" in y["b"]["lit"]]
+    if not backs or not fwds:
+        raise AnchorLost("compare_pstr_slices: decoding window not recognised (backs %s, forwards %s)" % (backs, fwds))
+    R.ob("C13:pstr-compare:utf8-window", min(backs) >= 3 and min(fwds) >= 4,
+         "the window decoded around the first differing byte reaches %s bytes back and %s bytes forward; a UTF-8 sequence has up to 4 bytes, so at least "
+         "3 back and 4 forward are needed or a 4-byte character is truncated and mis-ordered" % (backs, fwds), F.where(cps))
+
     # parallel_cmp: Ordering -> TermPair
     pc = F.find_impl("ParallelHeapIter", None, "parallel_cmp")
     ph = F.hir(pc)
